@@ -98,7 +98,7 @@ func vfValue(arg any, site int32) any {
 	case bool:
 		return !x
 	case nil:
-		return fmt.Sprintf("nil!%d", site)
+		return nil // NULL in, NULL out: a memoised NULL is still a memoised value
 	}
 	return fmt.Sprintf("%v!%d", arg, site)
 }
@@ -147,7 +147,7 @@ func init() {
 			"one ONCE call site per query; no LIMIT; function errors under ASYNC belong to C10/C19; SPIN completion before return is not required (only 'adds no column')",
 			"ASYNC calls appear as direct select-list items (the README rules out ASYNC inside FROM clauses)",
 		},
-		Floor:         []string{"q.plain", "q.async", "q.spinasync", "q.spin", "q.once", "star", "where", "nested", "lat.zero", "lat.yield", "lat.random", "lat.skewed", "lat.straggler", "table.empty", "imm.async", "imm.spin", "imm.spinasync", "imm.harness"},
+		Floor:         []string{"q.plain", "q.async", "q.spinasync", "q.spin", "q.once", "star", "where", "nested", "shape.union", "shape.cte", "arg.null", "lat.zero", "lat.yield", "lat.random", "lat.skewed", "lat.straggler", "table.empty", "imm.async", "imm.spin", "imm.spinasync", "imm.harness"},
 		MinNontrivial: 30,
 		Phases: []fw.Phase{
 			{Name: "ledger", N: func(t fw.Tier) int { return pick(t, 1000, 30000) }, Run: func(c *fw.Case) { c14Ledger(c, false) }},
@@ -197,9 +197,9 @@ func c14Ledger(c *fw.Case, race bool) {
 	if race {
 		setHookMode(1)
 	}
-	t := gen.RandTable(c.R, gen.TableSpec{Name: "t1", MaxRows: 12, NumCols: 2, StrCols: 1, BoolCols: 1, StrStyle: gen.Plain})
+	t := gen.RandTable(c.R, gen.TableSpec{Name: "t1", MaxRows: 12, NumCols: 2, StrCols: 1, BoolCols: 1, NullCols: 1, StrStyle: gen.Plain})
 	force := ""
-	forced := []string{"q.plain", "q.async", "q.spinasync", "q.spin", "q.once", "star", "where", "nested", "table.empty"}
+	forced := []string{"q.plain", "q.async", "q.spinasync", "q.spin", "q.once", "star", "where", "nested", "table.empty", "shape.union", "shape.cte", "arg.null"}
 	if c.Idx < 3*len(forced) {
 		force = forced[c.Idx%len(forced)]
 	}
@@ -211,6 +211,20 @@ func c14Ledger(c *fw.Case, race bool) {
 		feats = append(feats, "table.empty")
 	}
 	nested := force == "nested" || (force == "" && c.Chance(0.15))
+	shape := ""
+	switch {
+	case force == "shape.union" || (force == "" && !nested && c.Chance(0.12)):
+		shape = "union"
+	case force == "shape.cte" || (force == "" && !nested && c.Chance(0.12)):
+		shape = "cte"
+	}
+	mult := 1
+	if shape == "union" {
+		mult = 2
+	}
+	if shape != "" {
+		feats = append(feats, "shape."+shape)
+	}
 	if nested {
 		eid := 0
 		for _, row := range t.Rows {
@@ -234,12 +248,22 @@ func c14Ledger(c *fw.Case, race bool) {
 			q = map[string]string{"q.plain": "", "q.async": "ASYNC", "q.spinasync": "SPINASYNC", "q.spin": "SPIN", "q.once": "ONCE"}[force]
 		}
 		if q == "ONCE" {
-			if usedOnce || nested {
+			if usedOnce || nested || shape == "union" {
 				q = "ASYNC"
 			}
 			usedOnce = true
 		}
-		items = append(items, c14Item{qual: q, site: int32(i + 1), arg: gen.Pick(c.R, []string{"n1", "s1", "n2", "b1"}), alias: fmt.Sprintf("a%d", i+1)})
+		arg := gen.Pick(c.R, []string{"n1", "s1", "n2", "b1", "z1"})
+		if force == "arg.null" && i == 0 {
+			arg = gen.Pick(c.R, []string{"z1", "nokey"})
+			if !nested && !usedOnce && shape != "union" {
+				q, usedOnce = "ONCE", true
+			}
+		}
+		if arg == "z1" || arg == "nokey" {
+			feats = append(feats, "arg.null")
+		}
+		items = append(items, c14Item{qual: q, site: int32(i + 1), arg: arg, alias: fmt.Sprintf("a%d", i+1)})
 		feats = append(feats, map[string]string{"": "q.plain", "ASYNC": "q.async", "SPINASYNC": "q.spinasync", "SPIN": "q.spin", "ONCE": "q.once"}[q])
 	}
 	star := force == "star" || c.Chance(0.2)
@@ -289,6 +313,12 @@ func c14Ledger(c *fw.Case, race bool) {
 		sql := "SELECT " + strings.Join(parts, ", ") + " FROM t1"
 		if where != nil {
 			sql += " WHERE " + gen.RenderPred(where, gen.RenderOpts{})
+		}
+		switch shape {
+		case "union":
+			sql = sql + " UNION ALL " + sql
+		case "cte":
+			sql = "WITH c1 AS (" + sql + ") SELECT * FROM c1"
 		}
 		return sql
 	}
@@ -392,6 +422,10 @@ func c14Ledger(c *fw.Case, race bool) {
 			expectedCalls += len(units)
 		}
 	}
+	if mult == 2 {
+		want = append(append([]any{}, want...), want...)
+		expectedCalls *= 2
+	}
 	profiles := c14Profiles
 	nprof := pick(c.Tier, 3, 12)
 	doc := DocOf(t)
@@ -446,10 +480,10 @@ func c14Ledger(c *fw.Case, race bool) {
 				k := [2]int32{it.site, u.id}
 				switch it.qual {
 				case "ASYNC", "SPINASYNC", "":
-					if starts[k] != 1 || ends[k] != 1 {
+					if starts[k] != mult || ends[k] != mult {
 						det["ledger"] = fmt.Sprintf("site %d row %d: %d call-start, %d call-end before exec-return (late starts %d, late ends %d)", it.site, u.id, starts[k], ends[k], lateStart, lateEnd)
 						waitLedgerQuiet()
-						c.Violate("invocation", fmt.Sprintf("%s call (site %d) on row %d: %d invocations started and %d completed when Exec returned (expected exactly 1 and 1)", orPlain(it.qual), it.site, u.id, starts[k], ends[k]), det)
+						c.Violate("invocation", fmt.Sprintf("%s call (site %d) on row %d: %d invocations started and %d completed when Exec returned (expected exactly %d and %d)", orPlain(it.qual), it.site, u.id, starts[k], ends[k], mult, mult), det)
 						return
 					}
 				case "ONCE":
